@@ -634,6 +634,10 @@ def verify_function(world: World, c: Contract, max_paths: int = 4000) -> Functio
     if fn is None:
         return FunctionReport(c.key, None, 'missing', 'function not found in the working tree')
     rel = c.key.split(':')[0]
+    # locals the contract names (in loop invariants, measures, array-backed locals) that the current source has renamed
+    from . import renames as RN
+    needed = RN.names_in([cl for inv in c.invariants.values() for cl in inv] + list(c.decreases.values())) | set(c.locals_sig)
+    renames = RN.recover(c.key, fn, needed) if needed else {}
     worklist: list[list[bool]] = [[]]
     seen: dict[tuple, Obligation] = {}
     rep = FunctionReport(c.key, sha, 'ok')
@@ -647,6 +651,7 @@ def verify_function(world: World, c: Contract, max_paths: int = 4000) -> Functio
             break
         path = Path(world, decisions)
         path.theories = set(c.theories)
+        path.renames = renames
         ip = Interp(path, rel, {}, cls=cls, fname=short)
         ip.contract = c
         ip.soft_safety = set(c.soft_safety)
